@@ -145,6 +145,7 @@ type StepRes struct {
 	Kind      string `json:"kind"` // read | write | touch
 	Store     string `json:"store"`
 	Err       string `json:"err,omitempty"`
+	Slow      bool   `json:"slow_machine,omitempty"` // missed its caller deadline while a probe commit on a scratch store was slow too: no verdict
 }
 
 func recoverRole(args []string) int {
@@ -160,6 +161,33 @@ func recoverRole(args []string) int {
 	var out []StepRes
 	n := 0
 	commitReads := false
+	// A caller deadline bounds every judged commit (3 s / 8 s; a healthy commit takes ~30 ms, a commit
+	// that waits for a dead transaction's lock or staging waits minutes). On a badly overloaded machine a
+	// healthy commit can miss that deadline too: when a step ends in "deadline exceeded" a probe commit on
+	// an unrelated scratch store is timed; if even that takes more than 300 ms the step is reported as
+	// slow-machine (inconclusive), not as an error.
+	probeDir := ""
+	slowMachine := func() bool {
+		if probeDir == "" {
+			probeDir = env.Scratch("crash-probe")
+			pdb := sopx.NewDB(probeDir)
+			p := txn.Program{Create: []txn.Spec{{Name: "probe", Slot: 4, Profile: sopx.InNode}}, Ops: []txn.Op{{Store: "probe", Kind: "add", K: "k", V: "v"}}}
+			if err := txn.Commit(txn.Public{DB: pdb}, p, time.Minute); err != nil {
+				return true
+			}
+		}
+		t0 := time.Now()
+		err := txn.Commit(txn.Public{DB: sopx.NewDB(probeDir)}, txn.Program{Ops: []txn.Op{{Store: "probe", Kind: "upsert", K: "k", V: fmt.Sprint(t0.UnixNano())}}}, time.Minute)
+		return err != nil || time.Since(t0) > 300*time.Millisecond
+	}
+	defer func() {
+		if probeDir != "" {
+			env.Remove(probeDir)
+		}
+	}()
+	deadlineErr := func(err error) bool {
+		return err != nil && (strings.Contains(err.Error(), "context deadline exceeded") || strings.Contains(err.Error(), "context canceled"))
+	}
 	readAll := func(min int) {
 		for _, st := range rs.Stores {
 			sr := StepRes{OffsetMin: min, Kind: "read", Store: st}
@@ -180,6 +208,9 @@ func recoverRole(args []string) int {
 					cctx, cancel := context.WithTimeout(context.Background(), 3*time.Second)
 					err = t.Commit(cctx)
 					cancel()
+					if deadlineErr(err) && slowMachine() {
+						sr.Slow, err = true, nil
+					}
 				} else {
 					t.Rollback(context.Background())
 				}
@@ -197,6 +228,9 @@ func recoverRole(args []string) int {
 			cctx, cancel := context.WithTimeout(context.Background(), 3*time.Second)
 			err := commitCtx(cctx, db, txn.Program{Ops: []txn.Op{{Store: st, Kind: "upsert", K: fmt.Sprintf("zz%02d", n), V: "recovery-writer"}}})
 			cancel()
+			if deadlineErr(err) && slowMachine() {
+				sr.Slow, err = true, nil
+			}
 			if err != nil {
 				sr.Err = err.Error()
 			}
@@ -221,7 +255,11 @@ func recoverRole(args []string) int {
 		sr := StepRes{OffsetMin: 290, Kind: "touch", Store: "*"}
 		cctx, cancel := context.WithTimeout(context.Background(), 8*time.Second)
 		if err := commitCtx(cctx, db, txn.Program{Ops: rs.Touch}); err != nil {
-			sr.Err = err.Error()
+			if deadlineErr(err) && slowMachine() {
+				sr.Slow = true
+			} else {
+				sr.Err = err.Error()
+			}
 		}
 		cancel()
 		out = append(out, sr)
